@@ -21,6 +21,8 @@ pub enum Event {
     Step(Schedule),
     /// a named stage result of the solve pipeline
     Stage(String, Schedule),
+    /// the transition the optimiser returned for one vehicle type (before it is put into a schedule)
+    Optimised(u16, solution::transition::Transition),
     /// the flow network of one vehicle type with the computed flow, the allotted maintenance
     /// slots (node, count) and the decoded tours
     Flow {
@@ -43,6 +45,10 @@ pub fn record_step(schedule: &Schedule) {
 
 pub fn record_stage(name: &str, schedule: &Schedule) {
     record(Event::Stage(name.to_string(), schedule.clone()));
+}
+
+pub fn record_optimised(vehicle_type: u16, transition: &solution::transition::Transition) {
+    record(Event::Optimised(vehicle_type, transition.clone()));
 }
 
 /// returns all events recorded so far and clears the sink
